@@ -6,6 +6,7 @@ package os
 import (
 	"io/fs"
 	real "os"
+	"syscall"
 
 	"github.com/microsoft/yardl/tooling/verifsim/sim"
 )
@@ -106,6 +107,13 @@ func (f *File) Readdirnames(n int) ([]string, error) {
 }
 
 func (f *File) Chmod(mode fs.FileMode) error { return nil }
+
+func (f *File) Chdir() error {
+	if f.h == nil {
+		return &fs.PathError{Op: "chdir", Path: f.name, Err: syscall.ENOTDIR}
+	}
+	return f.h.Chdir()
+}
 
 func wrap(h *sim.Handle, err error, name string) (*File, error) {
 	if err != nil {
